@@ -31,6 +31,65 @@ def names_in_expr(e: ast.AST) -> set[str]:
     return {x.id for x in ast.walk(e) if isinstance(x, ast.Name)}
 
 
+def rule_h(chk: Check, eng: Engine) -> None:
+    """R04-h.  GrammarProcessor names the helper rules of *, +, ?, {..}, alternatives and concatenations `<__kind:N_PREFIX>` with N counted per
+    spec.  Grammar.update merges the rules of all specs by name, so two specs with the same PREFIX overwrite each other's helper rules (the
+    parser then builds trees through the wrong rule).  Chain of custody of the prefix:
+      (1) every id built by GrammarProcessor contains self.id_prefix;
+      (2) FandangoSpec derives id_prefix from its `filename` parameter;
+      (3) in parse(), the filename handed to parse_content inside the loop over the given specs differs per iteration: every
+          assignment to it mentions the loop variable or a counter updated in the loop."""
+    gp = eng.cls("fandango.language.parse.convert", "GrammarProcessor")
+    n_ids = 0
+    for m in gp.methods.values():
+        for n in walk_local(m.node):
+            if isinstance(n, ast.JoinedStr) and any(isinstance(v, ast.FormattedValue) and "NodeType." in norm(v.value) for v in n.values):
+                n_ids += 1
+                if any(isinstance(v, ast.FormattedValue) and self_attr(v.value) == "id_prefix" for v in n.values):
+                    chk.ok("R04-h", m.fq, n.lineno, f"helper id `{short(n, 60)}` is qualified by self.id_prefix", nontrivial=False)
+                else:
+                    chk.bad("R04-h", eng.relfile(m), n.lineno, m.fq, f"helper id `{short(n, 60)}` is not qualified by the per-spec prefix", "helper rules of different specs collide", keyparts=f"id-no-prefix|{m.name}")
+    if n_ids < 5:
+        raise AnalysisError(f"GrammarProcessor: only {n_ids} helper-id constructions found")
+    spec = eng.cls("fandango.language.parse.spec", "FandangoSpec")
+    init = eng.method(spec, "__init__", inherited=False)
+    kws = [get_kwarg(c, "id_prefix") for c in walk_local(init.node) if isinstance(c, ast.Call) and call_name(c) == "GrammarProcessor"]
+    kws = [k for k in kws if k is not None]
+    if not kws:
+        raise AnalysisError("FandangoSpec.__init__: GrammarProcessor(id_prefix=...) not found")
+    for k in kws:
+        if "filename" in names_in_expr(k):
+            chk.ok("R04-h", init.fq, k.lineno, f"id_prefix = `{short(k, 50)}` is a function of the spec's file name")
+        else:
+            chk.bad("R04-h", eng.relfile(init), k.lineno, init.fq, f"id_prefix = `{short(k, 50)}` does not depend on the spec's file name", "all specs share one prefix", keyparts="prefix-not-from-filename")
+    pf = eng.func("fandango.language.parse.parse", "parse")
+    loops = [l for l in walk_local(pf.node) if isinstance(l, ast.For) and any(isinstance(c, ast.Call) and call_name(c) == "parse_content" for c in ast.walk(l))]
+    if not loops:
+        raise AnalysisError("parse(): no loop that calls parse_content")
+    for loop in loops:
+      varying = {n.id for n in ast.walk(loop.target) if isinstance(n, ast.Name)}
+      varying |= {n.target.id for n in ast.walk(loop) if isinstance(n, ast.AugAssign) and isinstance(n.target, ast.Name)}
+      for c in ast.walk(loop):
+          if isinstance(c, ast.Call) and call_name(c) == "parse_content":
+              fn_arg = get_kwarg(c, "filename") or (c.args[1] if len(c.args) > 1 else None)
+              if fn_arg is None:
+                  chk.bad("R04-h", eng.relfile(pf), c.lineno, pf.fq, "parse_content is called without a file name", "every spec gets the default name and therefore the same id prefix", keyparts="no-filename")
+                  continue
+              exprs = [fn_arg]
+              if isinstance(fn_arg, ast.Name) and fn_arg.id not in varying:
+                  exprs = [a.value for a in ast.walk(loop) if isinstance(a, ast.Assign) and any(isinstance(t, ast.Name) and t.id == fn_arg.id for t in a.targets)]
+                  if not exprs:
+                      chk.bad("R04-h", eng.relfile(pf), c.lineno, pf.fq, f"`{fn_arg.id}` is not assigned inside the spec loop", "all specs share one name", keyparts="filename-loop-invariant")
+                      continue
+              for e in exprs:
+                  if names_in_expr(e) & varying:
+                      chk.ok("R04-h", pf.fq, e.lineno, f"spec name `{short(e, 60)}` varies with the loop ({sorted(names_in_expr(e) & varying)})")
+                  else:
+                      chk.bad("R04-h", eng.relfile(pf), e.lineno, pf.fq, f"spec name `{short(e, 40)}` is the same for every spec that takes this branch",
+                              "two specs given as strings get the same helper-rule ids (<__star:1_PREFIX>): Grammar.update lets the later one replace the earlier one, "
+                              "so valid words are rejected and parse trees lack the nonterminals of the first spec", keyparts="filename-constant|" + norm(e)[:30])
+
+
 def run(chk: Check, eng: Engine) -> None:
     chk.rule("R04-e", "scanner leaves carry text sliced from the input word, and the Earley column advance equals the consumed length times the columns-per-byte constant", floor=10)
     chk.rule("R04-f", "in complete mode Terminal.check accepts only on a complete (non-partial) match", floor=1)
@@ -41,6 +100,9 @@ def run(chk: Check, eng: Engine) -> None:
     _memo = memo_attribute(eng, _parser)
     _g, _s = memo_helpers(_parser, _memo)
     _key_rule(chk, eng, _parser, _memo, _g, _s, rule="R04-g", only={"mode", "start", "word"})
+    chk.rule("R04-h", "ids of implicit grammar nodes are unique across the specs merged into one grammar: per-spec counters are qualified by a prefix "
+             "that is derived from the file name, and the spec loop never gives two specs the same name", floor=4)
+    rule_h(chk, eng)
     chk.rule("R04-a", "the public parse API yields only trees for which every constraint's check() is true", floor=2)
     chk.rule("R04-b", "trees leave the parser only through collapse() unless control-flow nodes were asked for; helper-symbol prefixes agree between writers and reader", floor=12)
     chk.rule("R04-c", "an exception raised while checking a constraint rejects the input", floor=3)
@@ -371,6 +433,9 @@ _IP = "src/fandango/language/grammar/parser/iterative_parser.py"
 _R = "src/fandango/language/grammar/nodes/repetition.py"
 _CMP = "src/fandango/constraints/comparison.py"
 MUTANTS = [
+    M("string-specs-share-name", "src/fandango/language/parse/parse.py", "            name = \"<string>\" if string_specs == 1 else f\"<string-{string_specs}>\"\n", "            name = \"<string>\"\n", "R04-h"),
+    M("id-prefix-constant", "src/fandango/language/parse/spec.py", "            id_prefix=\"{0:x}\".format(abs(hash(filename))),\n", "            id_prefix=\"{0:x}\".format(abs(hash(\"fandango\"))),\n", "R04-h"),
+    M("star-id-without-prefix", "src/fandango/language/parse/convert.py", "            f\"{NodeType.STAR}:{nid}_{self.id_prefix}\",\n", "            f\"{NodeType.STAR}:{nid}\",\n", "R04-h"),
     M("forest-key-drops-mode", _P, "        cache_key = (word, start, mode, hookin_parent, starter_bit)\n", "        cache_key = (word, start, hookin_parent, starter_bit)\n", "R04-g"),
     M("complete-check-partial-regex", "src/fandango/language/symbols/terminal.py", "                match = re.match(symbol, check_word)  # type: ignore", "                match = regex.compile(symbol).match(check_word, partial=True)  # type: ignore", "R04-f"),
     M("regex-leaf-uses-offset-before-reset", _IP, "            tree = ParserDerivationTree(Terminal(check_word[:match_length]))\n            if state.is_incomplete:\n                next_state.children[-1] = tree\n            else:\n                next_state.append_child(tree)\n            table[\n                k + ((table_offset - state.incomplete_idx) * table_idx_multiplier)\n            ].add(next_state)",
